@@ -530,8 +530,13 @@ Proof.
       apply mid_loop_ok with (g := g) in El; auto.
       destruct El as (Ht2 & Hh2 & Hok2). injection E as <- <- _.
       split; [|split; assumption].
-      apply store_ok; [|eapply good_of_ok; eauto].
-      destruct (d_phi cur2 =? 0); assumption.
+      assert (Ht3 : table_ok (if d_phi cur2 =? 0 then
+                       {| dtable := dtable s2; dstack := dstack s2;
+                          killers := set_nth (killers s2 ++ repeat move0 (S (length (dstack s)) - length (killers s2))) (length (dstack s)) (d_pv cur2);
+                          dst := dst s2; dfuel_out := dfuel_out s2 |} else s2))
+        by (destruct (d_phi cur2 =? 0); assumption).
+      match goal with |- table_ok (if ?c then _ else _) => destruct c end; [|exact Ht3].
+      apply store_ok; [exact Ht3|eapply good_of_ok; eauto].
 Qed.
 
 (* ---------- Prove ---------- *)
